@@ -263,7 +263,14 @@ where
                     // (the position comes from the file; with bytes before the header the sum may not fit)
                     let pos = t!(self.start_offset.checked_add(pos).ok_or(PdfError::Invalid));
                     let mut lexer = Lexer::with_offset(t!(self.backend.read(pos ..)), pos);
-                    let p = t!(parse_indirect_object(&mut lexer, resolve, self.decoder.as_ref(), flags)).1;
+                    let (id, mut p) = t!(parse_indirect_object(&mut lexer, resolve, self.decoder.as_ref(), flags));
+                    if id.id != r.id {
+                        // the object found there calls itself by another number. its stream data is cached under the
+                        // number it was asked for: the other number may belong to a different object
+                        if let Primitive::Stream(crate::primitive::PdfStream { inner: crate::primitive::StreamInner::InFile { id: ref mut stream_id, .. }, .. }) = p {
+                            stream_id.id = r.id;
+                        }
+                    }
                     Ok(p)
                 }
                 XRef::Stream {stream_id, index} => {
